@@ -37,35 +37,42 @@ package pql
 //@   ensures left == hasLeft(x) && right == hasRight(x)
 
 //@ func pql.writeExpression
-//@   use expr
+//@   use expr fail
 //@   requires ctx != nil && sb != nil && exprWF(x)
 //@   ensures @text: result == nil ==> out(sb) == W(mapdom(ctx.scope), mapval(ctx.scope), ctx.mode, x, old(out(sb)))
+//@   ensures @fails: (result != nil) == Wfail(mapdom(ctx.scope), ctx.mode, x)
 //@   assigns out(sb)
 //@   decreases height(x), 1
 //@ loop 1
+//@   invariant Wfail(mapdom(ctx.scope), ctx.mode, x) == Wfail(mapdom(ctx.scope), ctx.mode, old(x))
 //@   invariant exprWF(x) && strip(x) == strip(old(x)) && height(x) <= height(old(x))
 //@   invariant forallS(o, "Out", W(mapdom(ctx.scope), mapval(ctx.scope), ctx.mode, x, o) == W(mapdom(ctx.scope), mapval(ctx.scope), ctx.mode, old(x), o))
 //@   decreases height(x)
 //@ loop 2
+//@   invariant ctx.mode == 1 || !aliasL(x_QualifiedIdent.Parts, rangeindex + 1)
 //@   invariant -1 <= rangeindex && rangeindex < len(x_QualifiedIdent.Parts)
 //@   invariant Wparts(x_QualifiedIdent.Parts, rangeindex + 1, out(sb)) == Wparts(x_QualifiedIdent.Parts, 0, old(out(sb)))
 //@   decreases len(x_QualifiedIdent.Parts) - rangeindex
 //@ loop 3
+//@   invariant !Wfail(mapdom(ctx.scope), ctx.mode, x_InExpr.X) && !WfailL(mapdom(ctx.scope), ctx.mode, x_InExpr.Vals, rangeindex + 1)
 //@   invariant -1 <= rangeindex && rangeindex < len(x_InExpr.Vals)
 //@   invariant WMPlist(mapdom(ctx.scope), mapval(ctx.scope), ctx.mode, x_InExpr.Vals, rangeindex + 1, out(sb)) == WMPlist(mapdom(ctx.scope), mapval(ctx.scope), ctx.mode, x_InExpr.Vals, 0, olit(WMP(mapdom(ctx.scope), mapval(ctx.scope), ctx.mode, x_InExpr.X, old(out(sb))), " IN ("))
 //@   decreases len(x_InExpr.Vals) - rangeindex
 //@ loop 4
+//@   invariant !WfailL(mapdom(ctx.scope), ctx.mode, x_CallExpr.Args, rangeindex + 1)
 //@   invariant -1 <= rangeindex && rangeindex < len(x_CallExpr.Args)
 //@   invariant Wlist(mapdom(ctx.scope), mapval(ctx.scope), ctx.mode, x_CallExpr.Args, rangeindex + 1, out(sb)) == Wlist(mapdom(ctx.scope), mapval(ctx.scope), ctx.mode, x_CallExpr.Args, 0, OByte(OStr(old(out(sb)), x_CallExpr.Func.Name), 40))
 //@   decreases len(x_CallExpr.Args) - rangeindex
 
 //@ func pql.writeExpressionMaybeParen
-//@   use expr
+//@   use expr fail
 //@   requires ctx != nil && sb != nil && exprWF(x)
 //@   ensures @text: result == nil ==> out(sb) == WMP(mapdom(ctx.scope), mapval(ctx.scope), ctx.mode, x, old(out(sb)))
+//@   ensures @fails: (result != nil) == Wfail(mapdom(ctx.scope), ctx.mode, x)
 //@   assigns out(sb)
 //@   decreases height(x), 2
 //@ loop 1
+//@   invariant Wfail(mapdom(ctx.scope), ctx.mode, x) == Wfail(mapdom(ctx.scope), ctx.mode, old(x))
 //@   invariant exprWF(x) && strip(x) == strip(old(x)) && height(x) <= height(old(x))
 //@   decreases height(x)
 
@@ -73,93 +80,105 @@ package pql
 // common contract CW: under x.Func.Name == <key> the function writes W(x); it fails exactly on a wrong argument count (C13)
 
 //@ func pql.writeNotFunction
-//@   use expr
+//@   use expr fail
 //@   requires ctx != nil && sb != nil && typeis(x, "CallExpr") && exprWF(x) && x.Func.Name == "not"
 //@   ensures @text: result == nil ==> out(sb) == W(mapdom(ctx.scope), mapval(ctx.scope), ctx.mode, x, old(out(sb)))
 //@   ensures @arity: !arityOK(x.Func.Name, len(x.Args)) ==> result != nil
+//@   ensures @fails: (result != nil) == Wfail(mapdom(ctx.scope), ctx.mode, x)
 //@   assigns out(sb)
 //@   decreases height(x), 0
 
 //@ func pql.writeNowFunction
-//@   use expr
+//@   use expr fail
 //@   requires ctx != nil && sb != nil && typeis(x, "CallExpr") && exprWF(x) && x.Func.Name == "now"
 //@   ensures @text: result == nil ==> out(sb) == W(mapdom(ctx.scope), mapval(ctx.scope), ctx.mode, x, old(out(sb)))
 //@   ensures @arity: !arityOK(x.Func.Name, len(x.Args)) ==> result != nil
+//@   ensures @fails: (result != nil) == Wfail(mapdom(ctx.scope), ctx.mode, x)
 //@   assigns out(sb)
 //@   decreases height(x), 0
 
 //@ func pql.writeIsNullFunction
-//@   use expr
+//@   use expr fail
 //@   requires ctx != nil && sb != nil && typeis(x, "CallExpr") && exprWF(x) && x.Func.Name == "isnull"
 //@   ensures @text: result == nil ==> out(sb) == W(mapdom(ctx.scope), mapval(ctx.scope), ctx.mode, x, old(out(sb)))
 //@   ensures @arity: !arityOK(x.Func.Name, len(x.Args)) ==> result != nil
+//@   ensures @fails: (result != nil) == Wfail(mapdom(ctx.scope), ctx.mode, x)
 //@   assigns out(sb)
 //@   decreases height(x), 0
 
 //@ func pql.writeIsNotNullFunction
-//@   use expr
+//@   use expr fail
 //@   requires ctx != nil && sb != nil && typeis(x, "CallExpr") && exprWF(x) && x.Func.Name == "isnotnull"
 //@   ensures @text: result == nil ==> out(sb) == W(mapdom(ctx.scope), mapval(ctx.scope), ctx.mode, x, old(out(sb)))
 //@   ensures @arity: !arityOK(x.Func.Name, len(x.Args)) ==> result != nil
+//@   ensures @fails: (result != nil) == Wfail(mapdom(ctx.scope), ctx.mode, x)
 //@   assigns out(sb)
 //@   decreases height(x), 0
 
 //@ func pql.writeStrcatFunction
-//@   use expr
+//@   use expr fail
 //@   requires ctx != nil && sb != nil && typeis(x, "CallExpr") && exprWF(x) && x.Func.Name == "strcat"
 //@   ensures @text: result == nil ==> out(sb) == W(mapdom(ctx.scope), mapval(ctx.scope), ctx.mode, x, old(out(sb)))
 //@   ensures @arity: !arityOK(x.Func.Name, len(x.Args)) ==> result != nil
+//@   ensures @fails: (result != nil) == Wfail(mapdom(ctx.scope), ctx.mode, x)
 //@   assigns out(sb)
 //@   decreases height(x), 0
 //@ loop 1
+//@   invariant !WfailL(mapdom(ctx.scope), ctx.mode, x.Args, rangeindex + 2)
 //@   invariant -1 <= rangeindex && rangeindex < len(x.Args) - 1
 //@   invariant Wcat(mapdom(ctx.scope), mapval(ctx.scope), ctx.mode, x.Args, rangeindex + 2, out(sb)) == Wcat(mapdom(ctx.scope), mapval(ctx.scope), ctx.mode, x.Args, 1, WMP(mapdom(ctx.scope), mapval(ctx.scope), ctx.mode, x.Args[0], old(out(sb))))
 //@   decreases len(x.Args) - rangeindex
 
 //@ func pql.writeCountFunction
-//@   use expr
+//@   use expr fail
 //@   requires ctx != nil && sb != nil && typeis(x, "CallExpr") && exprWF(x) && x.Func.Name == "count"
 //@   ensures @text: result == nil ==> out(sb) == W(mapdom(ctx.scope), mapval(ctx.scope), ctx.mode, x, old(out(sb)))
 //@   ensures @arity: !arityOK(x.Func.Name, len(x.Args)) ==> result != nil
+//@   ensures @fails: (result != nil) == Wfail(mapdom(ctx.scope), ctx.mode, x)
 //@   assigns out(sb)
 //@   decreases height(x), 0
 
 //@ func pql.writeCountIfFunction
-//@   use expr
+//@   use expr fail
 //@   requires ctx != nil && sb != nil && typeis(x, "CallExpr") && exprWF(x) && x.Func.Name == "countif"
 //@   ensures @text: result == nil ==> out(sb) == W(mapdom(ctx.scope), mapval(ctx.scope), ctx.mode, x, old(out(sb)))
 //@   ensures @arity: !arityOK(x.Func.Name, len(x.Args)) ==> result != nil
+//@   ensures @fails: (result != nil) == Wfail(mapdom(ctx.scope), ctx.mode, x)
 //@   assigns out(sb)
 //@   decreases height(x), 0
 
 //@ func pql.writeIfFunction
-//@   use expr
+//@   use expr fail
 //@   requires ctx != nil && sb != nil && typeis(x, "CallExpr") && exprWF(x) && (x.Func.Name == "iff" || x.Func.Name == "iif")
 //@   ensures @text: result == nil ==> out(sb) == W(mapdom(ctx.scope), mapval(ctx.scope), ctx.mode, x, old(out(sb)))
 //@   ensures @arity: !arityOK(x.Func.Name, len(x.Args)) ==> result != nil
+//@   ensures @fails: (result != nil) == Wfail(mapdom(ctx.scope), ctx.mode, x)
 //@   assigns out(sb)
 //@   decreases height(x), 0
 
 //@ func pql.writeToLowerFunction
-//@   use expr
+//@   use expr fail
 //@   requires ctx != nil && sb != nil && typeis(x, "CallExpr") && exprWF(x) && x.Func.Name == "tolower"
 //@   ensures @text: result == nil ==> out(sb) == W(mapdom(ctx.scope), mapval(ctx.scope), ctx.mode, x, old(out(sb)))
 //@   ensures @arity: !arityOK(x.Func.Name, len(x.Args)) ==> result != nil
+//@   ensures @fails: (result != nil) == Wfail(mapdom(ctx.scope), ctx.mode, x)
 //@   assigns out(sb)
 //@   decreases height(x), 0
 
 //@ func pql.writeToUpperFunction
-//@   use expr
+//@   use expr fail
 //@   requires ctx != nil && sb != nil && typeis(x, "CallExpr") && exprWF(x) && x.Func.Name == "toupper"
 //@   ensures @text: result == nil ==> out(sb) == W(mapdom(ctx.scope), mapval(ctx.scope), ctx.mode, x, old(out(sb)))
 //@   ensures @arity: !arityOK(x.Func.Name, len(x.Args)) ==> result != nil
+//@   ensures @fails: (result != nil) == Wfail(mapdom(ctx.scope), ctx.mode, x)
 //@   assigns out(sb)
 //@   decreases height(x), 0
 
 //@ func pql.writeExpressionOperand
-//@   use expr
+//@   use expr fail
 //@   requires ctx != nil && sb != nil && exprWF(x)
 //@   ensures @text: result == nil ==> out(sb) == WMPu(mapdom(ctx.scope), mapval(ctx.scope), ctx.mode, x, old(out(sb)))
+//@   ensures @fails: (result != nil) == Wfail(mapdom(ctx.scope), ctx.mode, x)
 //@   assigns out(sb)
 //@   decreases height(x), 3
 //@ loop 1
@@ -169,28 +188,34 @@ package pql
 // ---------------------------------------------------------------- one subquery
 
 //@ func pql.(*subquery).write
-//@   use plan
+//@   use plan fail
 //@   requires sub != nil && ctx != nil && sb != nil
 //@   requires opWF(ctx.source, sub.op) && sortWF(sub.sort) && takeWF(sub.take)
 //@   ensures @text: result == nil ==> out(sb) == WS(mapdom(ctx.scope), mapval(ctx.scope), ctx.mode, ctx.source, sub.sourceSQL, sub.op, sub.sort, sub.take, old(out(sb)))
+//@   ensures @fails: (result != nil) == subFail(mapdom(ctx.scope), ctx.mode, sub.op, sub.sort, sub.take)
 //@   assigns out(sb)
 //@ loop 1
+//@   invariant !colsFailL(mapdom(ctx.scope), ctx.mode, op_ProjectOperator.Cols, rangeindex + 1)
 //@   invariant -1 <= rangeindex && rangeindex < len(op_ProjectOperator.Cols)
 //@   invariant WprojCols(mapdom(ctx.scope), mapval(ctx.scope), ctx.mode, op_ProjectOperator.Cols, rangeindex + 1, out(sb)) == WprojCols(mapdom(ctx.scope), mapval(ctx.scope), ctx.mode, op_ProjectOperator.Cols, 0, olit(old(out(sb)), "SELECT "))
 //@   decreases len(op_ProjectOperator.Cols) - rangeindex
 //@ loop 2
+//@   invariant !colsFailL(mapdom(ctx.scope), ctx.mode, op_ExtendOperator.Cols, rangeindex + 1)
 //@   invariant -1 <= rangeindex && rangeindex < len(op_ExtendOperator.Cols)
 //@   invariant WextCols(mapdom(ctx.scope), mapval(ctx.scope), ctx.mode, ctx.source, op_ExtendOperator.Cols, rangeindex + 1, out(sb)) == WextCols(mapdom(ctx.scope), mapval(ctx.scope), ctx.mode, ctx.source, op_ExtendOperator.Cols, 0, olit(old(out(sb)), "SELECT *"))
 //@   decreases len(op_ExtendOperator.Cols) - rangeindex
 //@ loop 3
+//@   invariant !colsFailL(mapdom(ctx.scope), ctx.mode, op_SummarizeOperator.GroupBy, rangeindex + 1)
 //@   invariant -1 <= rangeindex && rangeindex < len(op_SummarizeOperator.GroupBy)
 //@   invariant WsumCols(mapdom(ctx.scope), mapval(ctx.scope), ctx.mode, ctx.source, op_SummarizeOperator.GroupBy, false, rangeindex + 1, out(sb)) == WsumCols(mapdom(ctx.scope), mapval(ctx.scope), ctx.mode, ctx.source, op_SummarizeOperator.GroupBy, false, 0, olit(old(out(sb)), "SELECT "))
 //@   decreases len(op_SummarizeOperator.GroupBy) - rangeindex
 //@ loop 4
+//@   invariant !colsFailL(mapdom(ctx.scope), ctx.mode, op_SummarizeOperator.Cols, rangeindex + 1)
 //@   invariant -1 <= rangeindex && rangeindex < len(op_SummarizeOperator.Cols)
 //@   invariant WsumCols(mapdom(ctx.scope), mapval(ctx.scope), ctx.mode, ctx.source, op_SummarizeOperator.Cols, len(op_SummarizeOperator.GroupBy) > 0, rangeindex + 1, out(sb)) == WsumCols(mapdom(ctx.scope), mapval(ctx.scope), ctx.mode, ctx.source, op_SummarizeOperator.Cols, len(op_SummarizeOperator.GroupBy) > 0, 0, WsumCols(mapdom(ctx.scope), mapval(ctx.scope), ctx.mode, ctx.source, op_SummarizeOperator.GroupBy, false, 0, olit(old(out(sb)), "SELECT ")))
 //@   decreases len(op_SummarizeOperator.Cols) - rangeindex
 //@ loop 5
+//@   invariant !colsFailL(mapdom(ctx.scope), ctx.mode, op_SummarizeOperator.GroupBy, rangeindex + 1)
 //@   invariant -1 <= rangeindex && rangeindex < len(op_SummarizeOperator.GroupBy)
 //@   invariant WgroupBy(mapdom(ctx.scope), mapval(ctx.scope), ctx.mode, op_SummarizeOperator.GroupBy, rangeindex + 1, out(sb)) == WgroupBy(mapdom(ctx.scope), mapval(ctx.scope), ctx.mode, op_SummarizeOperator.GroupBy, 0, olit(OStr(olit(WsumCols(mapdom(ctx.scope), mapval(ctx.scope), ctx.mode, ctx.source, op_SummarizeOperator.Cols, len(op_SummarizeOperator.GroupBy) > 0, 0, WsumCols(mapdom(ctx.scope), mapval(ctx.scope), ctx.mode, ctx.source, op_SummarizeOperator.GroupBy, false, 0, olit(old(out(sb)), "SELECT "))), " FROM "), sub.sourceSQL), " GROUP BY "))
 //@   decreases len(op_SummarizeOperator.GroupBy) - rangeindex
@@ -199,6 +224,7 @@ package pql
 //@   invariant Wprops(op_RenderOperator.Props, rangeindex + 1, out(sb)) == Wprops(op_RenderOperator.Props, 0, olit(QS(op_RenderOperator.ChartType.Name, olit(old(out(sb)), "SELECT *,\n    ")), " as \"render_type\""))
 //@   decreases len(op_RenderOperator.Props) - rangeindex
 //@ loop 7
+//@   invariant !colsFailL(mapdom(ctx.scope), ctx.mode, sub.sort.Terms, rangeindex + 1)
 //@   invariant -1 <= rangeindex && rangeindex < len(sub.sort.Terms)
 //@   invariant Wterms(mapdom(ctx.scope), mapval(ctx.scope), ctx.mode, sub.sort.Terms, rangeindex + 1, out(sb)) == Wterms(mapdom(ctx.scope), mapval(ctx.scope), ctx.mode, sub.sort.Terms, 0, olit(WSop(mapdom(ctx.scope), mapval(ctx.scope), ctx.mode, ctx.source, sub.sourceSQL, sub.op, old(out(sb))), " ORDER BY "))
 //@   decreases len(sub.sort.Terms) - rangeindex
